@@ -569,7 +569,7 @@ class RTCRtpReceiver:
                             packets_lost=stream.packets_lost,
                             highest_sequence=(stream.cycles + stream.max_seq)
                             & 0xFFFFFFFF,
-                            jitter=stream.jitter,
+                            jitter=min(stream.jitter, 0xFFFFFFFF),
                             lsr=lsr,
                             dlsr=dlsr,
                         )
